@@ -169,6 +169,7 @@ typedef struct Endpoint {
 	/* app record map: k-th application record this endpoint sent */
 	struct { int rec; uint64_t start; uint32_t len; } recmap[MAX_REC];
 	int nrecmap;
+	int refused_sends;             /* probe sends attempted while received data was still buffered */
 } Endpoint;
 
 extern Endpoint g_ep[2 * NET_MAX_CONN];
